@@ -219,6 +219,9 @@ func (q *Seq) render(r *SeqRealm, sidx int, m wamp.Message) []string {
 		if rp, _ := x.Details["receive_progress"].(bool); rp {
 			kv = append(kv, "receive_progress", "true")
 		}
+		if pg, _ := x.Details["progress"].(bool); pg {
+			kv = append(kv, "progress", "true")
+		}
 		i := fmt.Sprintf("I?%d", x.Request)
 		if s, ok := b.inv[invKey{sidx, x.Request}]; ok {
 			i = symI(s)
